@@ -20,22 +20,15 @@ const (
 	// sigor.Compose around sigor / cartesian compositions) the dereference happens inside such a goroutine and
 	// cannot be recovered: the verifier's PROCESS dies. Those inputs are therefore not executed at all (crashRisk).
 	knownNilComponent = "C08-nil-component-panic"
-	// sigor.CartesianCompose: Verify XORs E0 and E1 over min(len) bytes and slices E0/E1 to the challenge
-	// length without checking their lengths, so a response whose E0 or E1 carries surplus trailing bytes
-	// still verifies (under Fiat-Shamir always; under the Fischlin transforms when the hash target is met).
-	knownOrcLength = "C08-orc-challenge-length-malleable"
 )
 
-var knownIDs = []string{knownNilComponent, knownOrcLength}
+var knownIDs = []string{knownNilComponent}
 
 func matchKnown(in inst, cn compiler.Name, m mutation, violation, panicMsg string) string {
 	switch {
 	case violation == "panic" && (strings.Contains(panicMsg, "nil pointer dereference") || strings.Contains(panicMsg, "called using nil")) &&
 		(m.op == "null" || m.op == "map-drop"):
 		return knownNilComponent
-	case violation == "accepted" && m.op == "bstr-extend" && strings.Contains(in.Shape(), "orc(") &&
-		(strings.HasSuffix(m.class, ".E0") || strings.HasSuffix(m.class, ".E1")):
-		return knownOrcLength
 	}
 	return ""
 }
@@ -113,6 +106,10 @@ func applyAt(s site, op string) bool {
 var enumOps = []string{"null", "map-drop", "key-flip", "arr-trunc", "arr-extend", "bstr-trunc-front", "bstr-trunc-back",
 	"bstr-extend-front", "bstr-extend-back", "bitflip-first", "bitflip-last", "wide-head"}
 
+// Fixed findings asserted here without exclusion (regressions fail): a38e402 (Okamoto response with fewer / more
+// components than generators: arr-trunc / arr-extend at .z.components) and efa674c (sigor cartesian OR accepted a
+// response whose E0 / E1 carried surplus trailing bytes: bstr-extend-back at .Z.E0 / .Z.E1 of orc(..) shapes).
+//
 // TestTamperEveryClass: on one small proof per (protocol / composition shape, compiler), EVERY
 // class of site (path with array indices erased) is hit by EVERY deterministic operator
 // variant. The oracle is the one of TestNITamper; the catalogued findings are observed here
@@ -216,7 +213,9 @@ func TestTamperEveryClass(t *testing.T) {
 		if len(what) > 1500 {
 			what = what[:1500] + " ..."
 		}
-		vlib.Known(id, len(hits[id]) > 0, fmt.Sprintf("shard observation: %d of %d enumerated (site class, operator) placements: %s", len(hits[id]), sites, what))
+		vlib.Known(id, len(hits[id]) > 0, fmt.Sprintf("shard observation: %d of %d enumerated (site class, operator) placements make Verify panic with a nil dereference "+
+			"(null / map-drop mutants of and^n(or^m(..)) and or^n(andc(..)) shapes are NOT executed: there the dereference happens in an errgroup goroutine and kills the process; they are counted under excluded_known): %s",
+			len(hits[id]), sites, what))
 	}
 	vlib.Exhaustive("one proof per (15 protocol / composition kinds x 3 compilers): every site class x 12 deterministic operator variants")
 }
